@@ -166,15 +166,15 @@ theorem frontGuard_of_cg (lv : Nat) (p : Program) (h : CgProg lv p) : FrontGuard
 
 /-! ### the graph of the program -/
 
-theorem graph_fold (fuel : Nat) (ms : List Src.Macro) (env : Src.Env) (fell : Nat) : ∀ (bodies : List Stmts),
-    (∀ body ∈ bodies, ∀ k b, Grow b (Src.trStmts fuel ms env (toSrcStmts body) k b).1) → ∀ (acc : Src.B × List (Option Nat)),
-    Grow acc.1 ((bodies.map fun b => (⟨some (toSrcStmts b)⟩ : Src.Routine)).foldl (graphStep fuel ms env fell) acc).1 ∧
+theorem graph_fold (fuel : Nat) (ms : List Src.Macro) (env : Src.Env) (fell : Nat) (Z : Nat) : ∀ (bodies : List Stmts),
+    (∀ body ∈ bodies, ∀ k b, Grow Z b (Src.trStmts fuel ms env (toSrcStmts body) k b).1) → ∀ (acc : Src.B × List (Option Nat)),
+    Grow Z acc.1 ((bodies.map fun b => (⟨some (toSrcStmts b)⟩ : Src.Routine)).foldl (graphStep fuel ms env fell) acc).1 ∧
     (∀ j, j < acc.2.length →
       ((bodies.map fun b => (⟨some (toSrcStmts b)⟩ : Src.Routine)).foldl (graphStep fuel ms env fell) acc).2[j]? = acc.2[j]?) ∧
     ∀ j body, bodies[j]? = some body → ∃ bj,
       ((bodies.map fun b => (⟨some (toSrcStmts b)⟩ : Src.Routine)).foldl (graphStep fuel ms env fell) acc).2[acc.2.length + j]? =
         some (some (Src.trStmts fuel ms env (toSrcStmts body) fell bj).2) ∧
-      Grow (Src.trStmts fuel ms env (toSrcStmts body) fell bj).1
+      Grow Z (Src.trStmts fuel ms env (toSrcStmts body) fell bj).1
         ((bodies.map fun b => (⟨some (toSrcStmts b)⟩ : Src.Routine)).foldl (graphStep fuel ms env fell) acc).1 := by
   intro bodies
   induction bodies with
@@ -222,7 +222,7 @@ theorem compileBody_cg (cx : Cx) (fuel : Nat) (lv : Nat) (body : Stmts) (hg : cg
   obtain ⟨lb, s1, h1, ops, s2, h2, h3⟩ := h
   simp only [Prod.mk.injEq] at h1
   obtain ⟨rfl, rfl⟩ := h1
-  have hp := cStmts_c cx fuel lv body s.lbc hg { } ⟨rfl, rfl⟩ _ _ _ h2
+  have hp := cStmts_c cx fuel lv body s.lbc hg { } (envOK_empty cx) _ _ _ h2
   have l2 : s2.loops = [] := by rw [hp.loops]; exact hl
   have c2 : s2.cases = [] := by rw [hp.cases]; exact hc
   split at h3
